@@ -621,12 +621,12 @@ def context_native(vs):
         return {"layout_json": la if l == "A" else lb, "database": REPO + "/data", "opts": o}
     def typ_of(word):
         return [{"op": "key", "key": keys[ch], "sel": 0} for ch in word]
-    words = ["xyz", "asgulo", "academy"]      # a user auto-correct entry, base + suffix, a bundled auto-correct entry
+    words = ["xyz", "asgulo", "academy", "cool"]      # a user auto-correct entry, base + suffix, a bundled auto-correct entry, an emoji name
     edits = ["{\"xyz\":\"ami\"}", "{\"xyz\":\"tumi\"}", "{\"xyz\":\"kotha\"}", "{\"abc\":\"kotha\"}"]
     scs, meta = [], []
     for n in (2, 3, 4):
         for seq in itertools.product("PAB", repeat=n):
-            for flips in ((0,) * n, tuple(i % 2 for i in range(n))):
+            for flips in ((0,) * n, tuple(i % 2 for i in range(n)), tuple((i + 1) % 2 for i in range(n))):
                 steps = [{"op": "write_user_file", "name": "autocorrect.json", "content": edits[0]}, {"op": "new", "ctx": 0, "config": cfg(seq[0], flips[0])}]
                 marks = []
                 for i in range(n):
